@@ -97,6 +97,10 @@ PNAMES = ["p", "q", "r", "year", "part", "k1", "key"]
 PNAMES_ODD = ["my-col", "a b", "größe", "k.1", "p", "q"]
 
 
+# names of which one ends (or begins) another: a directory "grid=1" also contains the text "id=1"
+PNAMES_SUFFIX = ["grid", "id", "d", "year", "ear", "yearly"]
+
+
 @st.composite
 def partitioned(draw, thorough=False, value_kinds=frames.ALL_KINDS, max_parts=3, pkinds=None, min_rows=0,
                 schemes=("hive", "hive", "drill"), pnulls=True, max_value_cols=4):
@@ -104,7 +108,7 @@ def partitioned(draw, thorough=False, value_kinds=frames.ALL_KINDS, max_parts=3,
                            rows=[0, 1, 2, 3, 5, 8, 9, 12, 17, 30]))
     used = {c["name"] for c in fr["cols"]}
     nparts = draw(st.integers(1, max_parts))
-    pool = PNAMES_ODD if draw(st.integers(0, 5)) == 0 else PNAMES
+    pool = draw(st.sampled_from([PNAMES, PNAMES, PNAMES, PNAMES_ODD, PNAMES_SUFFIX, PNAMES_SUFFIX]))
     pnames = [n for n in pool if n not in used][:nparts]
     pcols = [draw(partition_column(n, **({"kinds": pkinds} if pkinds else {}), nulls=pnulls)) for n in pnames]
     # interleave partition columns among the value columns
